@@ -69,7 +69,7 @@ def run(ctx):
         "through-config replay binds client.py's reading code to a bare _Client object and records the keyword arguments "
         "it passes to StorageServer (the StorageServer class itself is replaced by a recorder)",
     ]
-    seednum = str(2 + (ctx.seed * 17 + 11) % 58)
+    seednum = str(40 + (ctx.seed * 7) % 20)
     ctx.constants["Tier"] = tier
     ctx.constants["SeedN"] = seednum
     cases, r = ctx.gen("util/ConfigParse", SPEC_CFG % (tier, seednum), timeout=3000)
